@@ -1,6 +1,7 @@
 package props
 
 import (
+	"bytes"
 	"errors"
 	"fmt"
 	"sort"
@@ -280,6 +281,27 @@ func (st *c08Stream) checkBlock(e *Env, blk ccfbBlock, now time.Time, v int, sha
 	return "", "", newNext
 }
 
+// c08Held models an RTCP writer that queues what it is given: the report handed over earlier must still
+// marshal to the same bytes after the next report has been built.
+type c08Held struct {
+	rep *rtcp.CCFeedbackReport
+	raw []byte
+}
+
+//go:norace
+func c08HeldNext(h *c08Held, e *Env, rep *rtcp.CCFeedbackReport, raw []byte) { h.next(e, rep, raw) }
+
+func (h *c08Held) next(e *Env, rep *rtcp.CCFeedbackReport, raw []byte) {
+	if h.rep != nil {
+		e.Check()
+		again, err := h.rep.Marshal()
+		if err != nil || !bytes.Equal(again, h.raw) {
+			e.Violatef("oracle", "c08:earlier-report-modified", "a report the writer still holds changed when the next report was built: it marshalled to %x, now to %x (%v)", h.raw, again, err)
+		}
+	}
+	h.rep, h.raw = rep, append([]byte{}, raw...)
+}
+
 //go:norace
 func c08Check(e *Env, streams map[uint32]*c08Stream, order []*c08Stream, raw []byte, now time.Time, maxSize int, lo map[uint32]int) {
 	e.Check()
@@ -384,6 +406,7 @@ func (c08) Run(e *Env) {
 	ops := opsOf[c08Op](e.Plan)
 	e.SetSample(fmt.Sprintf("interceptor=%v interval=%dms streams=%d ops=%d", cfg.Interceptor, cfg.IntervalMs, cfg.Streams, len(ops)))
 	streams := map[uint32]*c08Stream{}
+	held := &c08Held{}
 	var order []*c08Stream
 	for s := 0; s < cfg.Streams; s++ {
 		st := &c08Stream{ssrc: uint32(300 + s), first: map[int64]int{}, everRecv: map[int64]bool{}}
@@ -422,6 +445,7 @@ func (c08) Run(e *Env) {
 					continue
 				}
 				c08Check(e, streams, order, raw, now, o.Max, nil)
+				held.next(e, rep, raw)
 			}
 		}
 		return
@@ -483,6 +507,7 @@ func (c08) Run(e *Env) {
 				lo = map[uint32]int{}
 			}
 			c08Check(e, streams, order, raw, lastNow[g.ID], 1200, lo)
+			c08HeldNext(held, e, rep, raw)
 		}
 		return 0, nil
 	}))
